@@ -24,7 +24,10 @@ memory.  For formats that print the value of `Memory::read16/read32` the order i
 import re
 
 # style:
-#   bytes   : 2-digit byte columns, address order
+#   bytes   : 2-digit byte columns, address order.  The columns end at the first double blank.  `lead` = width of the
+#             byte field for the formats that print " hh" per byte into a fixed field: when the field is full only ONE
+#             blank separates it from the text, so a byte column must start inside the field (a mnemonic such as `cc`
+#             behind three bytes is text)
 #   words   : fixed-width words; `order` = le | be | cpu ; `cont` = None | "addr" | "noaddr"
 # div       : the printed address is byte address / div
 # Every entry was written from the appearance of the listing (see notes/C18.md for the table).
@@ -41,8 +44,8 @@ def _w(order, div=1, cont=None, **k):
 
 
 FORMATS = {
-    "1802": _b(), "4004": _b(), "6502": _b(), "65816": _b(), "65c02": _b(), "6800": _b(), "6809": _b(), "68hc08": _b(),
-    "8008": _b(), "8041": _b(), "8048": _b(), "8051": _b(), "86000": _b(), "f8": _b(), "m8c": _b(), "stm8": _b(),
+    "1802": _b(lead=8), "4004": _b(), "6502": _b(), "65816": _b(), "65c02": _b(), "6800": _b(), "6809": _b(), "68hc08": _b(),
+    "8008": _b(lead=9), "8041": _b(), "8048": _b(), "8051": _b(), "86000": _b(), "f8": _b(lead=8), "m8c": _b(), "stm8": _b(),
     "sweet16": _b(), "z80": _b(),
     "68000": _w("be", cont="noaddr"),
     "avr8": _w("le", div=2, cont="noaddr"),
@@ -98,11 +101,14 @@ def parse_instr_line(line, fmt, big):
     addr = unit * fmt["div"]
     if fmt["style"] == "bytes":
         body = rest.lstrip(" ")
+        skipped = len(rest) - len(body) - 1         # blanks that belong to the field
         out = []
         pos = 0
         while True:
             mm = re.match(r"([0-9a-f]{2})( |$)", body[pos:])
             if not mm:
+                break
+            if fmt.get("lead") and pos + skipped >= fmt["lead"]:
                 break
             out.append(int(mm.group(1), 16))
             pos += mm.end()
@@ -128,10 +134,11 @@ def parse_instr_line(line, fmt, big):
         return None
     digits = mm.group(1)
     if order == "dspic":
-        # 24-bit program word in a 32-bit slot: the fourth byte is not printed (it always is 0)
-        if len(digits) != 6:
+        # 24-bit program word in a 32-bit slot, printed as the value of the 32-bit little-endian word with at least six
+        # digits: a fourth byte that is not printed is 0
+        if len(digits) not in (6, 7, 8):
             return None
-        return addr, word_bytes(digits, "le", big) + [None]
+        return addr, word_bytes(digits.rjust(8, "0"), "le", big)
     if len(digits) not in (4, 6, 8):
         return None
     return addr, word_bytes(digits, order, big)
@@ -158,7 +165,9 @@ def parse_cont_line(line, fmt, big):
         digits = mm.group(1)
         if fmt["order"] == "dspic":
             # second word of a two-word instruction, printed with the same 0x%06x appearance
-            return int(m.group(1), 16) * fmt["div"], word_bytes(digits, "le", big) + [None]
+            if len(digits) != 6:
+                return None
+            return int(m.group(1), 16) * fmt["div"], word_bytes("00" + digits, "le", big)
         return int(m.group(1), 16) * fmt["div"], word_bytes(digits, fmt["order"], big)
     return None
 
